@@ -72,7 +72,7 @@ def build(data):
                 lv["defs"][d] = None
         for a in ATTRS:
             if g.chance(40):
-                lv["attrs"][a] = "L%d.%s" % (i, a)
+                lv["attrs"][a] = "L%d.%s" % (i, a) if g.chance(75) else g.pick([None, "", 0, False])
         levels.append(lv)
     for i in range(n - 1):
         levels[i]["inherit"] = g.pick(["static", "static", "dyn", "static"])
@@ -293,7 +293,7 @@ class Model:
                 self.run(self.member(j, it[2]), j)
             elif k == "attr":
                 j = self.firsta(self.start(it[1], i), it[2])
-                self.out.append(self.levels[j]["attrs"][it[2]])
+                self.out.append(str(self.levels[j]["attrs"][it[2]]))
             elif k == "body":
                 j = self.start(it[1], i)
                 self.body(j, it[2].get("x"))
